@@ -32,6 +32,8 @@ var reg = vk.Registry{"split": func(raw json.RawMessage) *vk.Violation {
 	return batchContent(c)
 }}
 
+func init() { reg["sequence"] = vk.SequenceReplayer(reg) }
+
 func TestReplay(t *testing.T) { vk.RunReplay(t, reg) }
 
 func eval(t vk.TB, c splitk.Case, constructed bool) {
@@ -62,11 +64,18 @@ func eval(t vk.TB, c splitk.Case, constructed bool) {
 		}
 	}
 	rec.Sample(c.Proto, map[string]any{"proto": c.Proto, "coding": c.Coding, "ref": c.Ref, "text_bytes": len(c.Text) / 2, "parts": len(r.Parts), "reported": r.Actual, "text_head": head(c)})
-	rec.Report(t, "split", splitk.Content(c, r))
+	first := true
+	rec.ReportSeq(t, "split", c, func() *vk.Violation {
+		if first {
+			first = false
+			return splitk.Content(c, r)
+		}
+		return splitk.Content(c, splitk.Run(c))
+	})
 	// the batch builder with this coding as its only candidate is the third entry point
 	if c.TextString() != "" {
 		rec.Eval()
-		rec.Report(t, "batchsplit", batchContent(c))
+		rec.ReportSeq(t, "batchsplit", c, func() *vk.Violation { return batchContent(c) })
 	}
 }
 
